@@ -1,8 +1,8 @@
 (* Correspondence check for C10 (and, in mode 1, C16's named-variant sweep). *)
 From Coq Require Import String.
 From Coq Require Import List NArith ZArith Bool.
-From Dials Require Export Base.Outcome Base.Runes Reflect.Ty Transform.RType Transform.Manglers
-  Transform.Transformer.
+From Dials Require Export Base.Outcome Base.Runes Reflect.Ty Transform.RType Transform.MAlias
+  Transform.Manglers Transform.Transformer.
 Import ListNotations.
 Open Scope N_scope.
 
@@ -100,16 +100,78 @@ Definition model_reverse (E : env) (t : ty) (ms : list mangler) (filled : list v
   r <- model_translate t ms ;;
   reverse (fuel_for t) E ms (snd r) (fst r, VStruct filled).
 
+(* ---- the types the property quantifies over: what Pointerify produces ---- *)
+Fixpoint ptrified_ty (t : ty) : bool :=
+  match t with
+  | TPtr (TStruct fs _) => ptrified_fields fs
+  | TPtr _ | TSlice _ _ | TMap _ _ _ | TIface => true
+  | _ => false
+  end
+with ptrified_fields (fs : fields) : bool :=
+  match fs with
+  | FNil => true
+  | FCons n tg _ t r => negb (omit_field n tg) && ptrified_ty t && ptrified_fields r
+  end.
+Definition supported (t : ty) : bool :=
+  match t with TStruct fs _ => ptrified_fields fs | _ => false end.
+
+(* known-finding class 1: an alias tag on an embedded (anonymous) struct field
+   in a chain that later flattens: both copies contribute the same names *)
+Definition chain_alias_tags (ms : list mangler) : list str :=
+  flat_map (fun m => match m with MAlias tags => tags | _ => [] end) ms.
+Definition has_alias_tag (atags : list str) (tg : list (str * str)) : bool :=
+  existsb (fun t => match tag_lookup (t ++ alias_sfx) tg with Some _ => true | None => false end) atags.
+Fixpoint alias_on_anon_ty (atags : list str) (t : ty) : bool :=
+  match t with
+  | TPtr e | TSlice e _ | TArray _ e => alias_on_anon_ty atags e
+  | TStruct fs _ => alias_on_anon_fields atags fs
+  | _ => false
+  end
+with alias_on_anon_fields (atags : list str) (fs : fields) : bool :=
+  match fs with
+  | FNil => false
+  | FCons _ tg an t r =>
+      (an && has_alias_tag atags tg) || alias_on_anon_ty atags t || alias_on_anon_fields atags r
+  end.
+Definition chain_flattens (ms : list mangler) : bool :=
+  existsb (fun m => match m with MFlatten _ _ _ | MAnonFlatten => true | _ => false end) ms.
+Definition class1 (t : ty) (ms : list mangler) : bool :=
+  chain_flattens ms && alias_on_anon_ty (chain_alias_tags ms) t.
+
+Definition all_nil (vs : list val) : bool := forallb is_vnil vs.
+
+(* verdicts: 0 pass; 1 implementation <> model on something the property does
+   not speak about (translated type's tags, types outside the quantifier);
+   3 the property fails on this case; 10+k it fails, implementation = model,
+   and the case is in known-finding class k *)
 Definition check (c : c10case) : N :=
   match c with
   | XCase mode t ms itt filled oracle impl =>
       let mtt := omap fst (model_translate t ms) in
-      if negb (ty_out_eqb itt mtt) then 3
+      let corr_t := ty_out_eqb itt mtt in
+      let model := match itt with
+                   | Ok _ => model_reverse (case_env oracle) t ms filled
+                   | _ => Err 0
+                   end in
+      let corr_v := match itt with Ok _ => tval_out_eqb impl model | _ => true end in
+      if negb (supported t) then (if corr_t && corr_v then 0 else 1)
       else match itt with
+           | Panic _ => if corr_t && class1 t ms then 11 else 3
+           | Err _ => 3
            | Ok _ =>
-               let model := model_reverse (case_env oracle) t ms filled in
-               if tval_out_eqb impl model then 0 else 3
-           | _ => 0
+               match impl with
+               | Panic _ => 3
+               | _ =>
+                   if mode =? 1 then (if corr_t && corr_v then 0 else 1)
+                   else
+                     let exact := match impl with Ok (rt, _) => ty_eqb rt t | _ => true end in
+                     let empty_ok :=
+                       if all_nil filled
+                       then match impl with Ok (_, v) => val_eqb v (zero t) | _ => false end
+                       else true in
+                     if negb exact || negb empty_ok || negb corr_v then 3
+                     else if corr_t then 0 else 1
+               end
            end
   end.
 
